@@ -89,6 +89,9 @@ class _Cexptrk_Potential_Function(object):
           # The expression library reports an argument outside the domain of one of its functions
           # (sqrt or log of a negative number, 0/0) by returning not-a-number, never by raising.
           raise Potential_Form_Exception("evaluates to not-a-number for arguments ({})".format(", ".join([str(a) for a in args])))
+        if retval in (float("inf"), float("-inf")):
+          # ... and a division by zero (a pole of the formula) by returning an infinite value, where Python raises ZeroDivisionError.
+          raise Potential_Form_Exception("evaluates to an infinite value for arguments ({})".format(", ".join([str(a) for a in args])))
       finally:
         for (pn, v) in zip(parameter_names, saved):
           self._local_symbol_table.variables[pn] = v
